@@ -212,7 +212,7 @@ BytesVal(s, j) == IF j > Len(s) THEN 0 ELSE s[j] + 256 * BytesVal(s, j + 1)
 LawInit == phase = "init" =>
     \A dest \in IntTypes :
         LET e == ExpectInit(Eval(A, <<>>, Dm), dest, Dm)
-            le == IF Dm.be THEN Reverse(e.bytes) ELSE e.bytes IN
+            le == IF Dm.be THEN RevBytes(e.bytes) ELSE e.bytes IN
         /\ e.st = "ok" /\ Len(e.bytes) = Size(dest, Dm)
         /\ BytesVal(le, 1) = Mod(ToT(dest, va), P(dest))
         /\ (In(dest, va) <=> e.fl \cap {"destU", "destS"} = {})
